@@ -608,6 +608,11 @@ class ExprMixin:
         return {"Eq": x == y, "NotEq": x != y, "Lt": x < y, "LtE": x <= y, "Gt": x > y, "GtE": x >= y}[opn]
 
     def identical(self, a, b, st, node=None):
+        from .bomodel import BaseOf
+        if isinstance(a, BaseOf) or isinstance(b, BaseOf):
+            n = self.__dict__.setdefault("_base_is", [0])
+            n[0] += 1
+            return z3.Bool("base-is!%d" % n[0])
         if a is None or b is None:
             return a is None and b is None
         if isinstance(a, Ref) and isinstance(b, Ref):
